@@ -498,10 +498,22 @@ def run(ck, F):
         CE = _CE(F)
         sites = []
 
+        lit_bodies = {}
+
         def cb_(e, env, ctx):
             k = e.get("k")
-            if (k == "Match" and Hh.sp(e) == tsite) or (k == "Path" and e.get("path") == holder) or \
-                    (k in ("Call", "MethodCall") and (Hh.callee_path(e) or "") in users):
+            if k == "Match" and Hh.sp(e) == tsite:
+                # the table is the arms with literal patterns: each is judged where it runs (behind the guards of the arms before it)
+                for a_ in e["arms"]:
+                    if C02._pat_literals(a_["pat"]) is not None:
+                        lit_bodies[id(Hh.strip(a_["body"]))] = True
+                if not lit_bodies:
+                    sites.append((Hh.sp(e), ctx))
+                return
+            if id(e) in lit_bodies:
+                sites.append((Hh.sp(e), ctx))
+                return
+            if (k == "Path" and e.get("path") == holder) or (k in ("Call", "MethodCall") and (Hh.callee_path(e) or "") in users):
                 sites.append((Hh.sp(e), ctx))
         try:
             og.EnvWalker(F).walk_fn(C02.AS_RUST_TYPE, cb_)
